@@ -15,10 +15,18 @@ Monitors (all on the real coba.random code):
      call after an arbitrary prefix; the LCG state read from the generator frame confirms the target was reached;
  (d) thorough tier: full-period sweep -- 16 shards x 2^26 consecutive states through the real randoms()/gausses()
      (both Box-Muller alignments) under the contracts, compared chunk-wise with the LCG model for reach accounting;
-     plus coba's own unit tests that draw random numbers, run with the contracts switched on.
+     plus coba's own unit tests that draw random numbers, run with the contracts switched on;
+ (e) the consumers of the stream in the anchor files (pipes.filters.Shuffle/Reservoir, environments.filters.Reservoir,
+     learners.utilities.PMFPredictor/PMFInfoPredictor, SafeLearner's pmf route) run on the real code under the same contracts:
+     generated requests plus adversarial seeds that put the extreme states on EVERY draw position of the consumer's stream
+     (each draw of the reservoir's initial shuffle, each of the three draws of the first skip-loop triples and of the triples
+     around the refill of its batch of uniforms, each round of a predictor); no raise, a sample of distinct input positions /
+     an action with non-zero probability and that probability, and the same result when re-run under interference, from
+     another container with the same items, from a pickled/deep-copied filter and through the inheriting class.
 """
 import os, sys, json, math, time, copy, pickle, base64, random as pyrandom, subprocess, tempfile, shutil, glob
 from itertools import accumulate, islice
+from fractions import Fraction
 from vf import lcg_c05 as L
 from vf.lcg_c05 import A, C, M, M1, step, jump, seed_for, state_of, draws_between, ContractBroken
 
@@ -26,9 +34,10 @@ ID    = "C05"
 LEVEL = "exploration"
 RULE  = ("seeded call scripts over the 9 CobaRandom methods x int/float/str seeds x argument classes (bounds in the "
          "2^20 box incl. its corners, weights with leading/embedded/trailing zeros, lengths 0/1/2/many, sequences with distinct members and with equal members "
-         "at several positions incl. 1/1.0/True; pmf-style histories of weighted draws over one action set), each run solo "
+         "at several positions incl. 1/1.0/True; weights of int, float and fractions.Fraction type, alone and mixed; pmf-style histories of weighted draws over one action set), each run solo "
          "under the postconditions and replayed under 5 interference families + twin + module route + child process + re-used/in-place-updated argument objects; "
-         "adversarial seeds by LCG inversion for every draw position of every method; a case is one method call in the "
+         "adversarial seeds by LCG inversion for every draw position of every method and of every consumer of the stream in the anchor files "
+         "(Shuffle/Reservoir filters, PMF predictors, SafeLearner pmf route; also generated requests to them); a case is one method call in the "
          "solo run (or one replay/sweep chunk); distinct & non-trivial = distinct (method, LCG state class of the "
          "uniforms the call consumed, argument class) with at least one uniform consumed")
 PLAN  = {"quick":    {"shards": 16, "cases": 32000,  "timeout": 600,  "budget_s": 75},
@@ -44,13 +53,27 @@ REQUIRED = ["contract.random.in_range", "contract.randoms.in_range", "contract.r
             "oracle.purity.child-unpickle", "oracle.purity.reused-argument-objects", "workload.choicew.weighted.equal-members",
             "oracle.purity.route=pickle", "oracle.purity.route=copy", "oracle.purity.route=deepcopy",
             "adversarial.reached.u=0", "adversarial.reached.u=largest", "adversarial.reached.threshold",
-            "oracle.attain.randint", "oracle.shuffle.iterator-permutation", "model.calls_following_lcg"]
+            "oracle.attain.randint", "oracle.shuffle.iterator-permutation", "model.calls_following_lcg",
+            "contract.weights.fraction", "workload.weighted.fraction-weights",
+            "oracle.consumer.reservoir", "oracle.consumer.env-reservoir", "oracle.consumer.shuffle-filter", "oracle.consumer.pmf-predictor",
+            "oracle.consumer.pmf-info-predictor", "oracle.consumer.safe-learner-pmf", "oracle.purity.consumer",
+            "adversarial.consumer.reached.u=0@shuffle-draw", "adversarial.consumer.reached.u=0@skip-loop-draw-1-of-3",
+            "adversarial.consumer.reached.u=0@skip-loop-draw-2-of-3", "adversarial.consumer.reached.u=0@skip-loop-draw-3-of-3",
+            "adversarial.consumer.reached.u=largest@skip-loop-draw-1-of-3", "adversarial.consumer.reached.u=0@predict-draw",
+            "adversarial.consumer.reached.threshold@predict-draw"]
 ASSUMPTIONS = [
     "seed=None is excluded (time-seeded by design); every other int, float (incl. nan/inf) and str seed is in scope",
     "uniform bounds: |min|,|max| <= 2^20 and max-min >= 2^-20; gauss mu/sigma within 2^20; outside that nothing is asserted",
     "weights are non-negative with a positive sum and as long as the sequence (documented precondition); sequences may hold equal "
     "members at several positions (also 1 / 1.0 / True): a returned (item, w) is accepted when SOME position holds a member equal to "
     "item whose weight is w and w > 0 (which of several equal members was drawn is not observable, so nothing more is demanded)",
+    "weights are int, float or fractions.Fraction values (an exact rational is an ordinary real argument value that the call accepts; "
+    "decimal.Decimal cannot be multiplied with the float uniform by Python itself and is not generated; bool weights are not generated)",
+    "consumers of the stream (anchor files): only what the statement entails is asserted -- a legal seed never makes the consumer raise, "
+    "equal seed and argument values give the equal result whatever runs in between, a Shuffle/Reservoir result holds members of the input "
+    "taken from distinct positions (all of them / min(count, n) of them, none when strict and n < count), a predictor returns an offered action "
+    "whose probability is non-zero together with exactly that probability; WHICH sample is drawn is not asserted.  The model of the "
+    "reservoir's skip loop is used for reach accounting only (was the aimed triple read), never as an oracle",
     "re-used argument objects: the caller only updates its own lists between calls (never during one); tuples/ranges/numbers are "
     "immutable and are passed as they are",
     "choice/choicew on an empty sequence may raise anything but must not return a value; any other call in the domain must not raise",
@@ -140,7 +163,28 @@ def gen_equal_members(rng, n):
         i, j = rng.sample(range(n), 2); seq[j] = seq[i]
     return seq
 
+def dec_w(w):
+    """weights as the call gets them: a str 'n/d' in a (JSON-able) spec stands for fractions.Fraction(n, d)"""
+    return None if w is None else [Fraction(x) if isinstance(x, str) else x for x in w]
+def enc_w(w):
+    return [f"{x.numerator}/{x.denominator}" if isinstance(x, Fraction) else x for x in w]
+def _has_fraction(w): return w is not None and any(isinstance(x, str) for x in w)
+
+def gen_fraction_weights(rng, n):
+    """exact rational weights (a pmf kept as fractions sums to exactly 1), alone or next to int weights; zeros of either type"""
+    style = rng.choice(["all-fractions", "all-fractions", "normalised", "with-ints"])
+    raw = [rng.choice([0, 0, 1, 2, 3]) for _ in range(n)]
+    if sum(raw) == 0: raw[rng.randrange(n)] = 1
+    if style == "normalised": w = [Fraction(x, sum(raw)) for x in raw]
+    else:
+        w = [Fraction(x, rng.choice([1, 2, 3, 4, 7, 10])) for x in raw]
+        if style == "with-ints": w = [int(x) if x.denominator == 1 and rng.random() < .7 else x for x in w]
+        if not any(isinstance(x, Fraction) for x in w):
+            j = rng.randrange(n); w[j] = Fraction(w[j])
+    return enc_w(w)
+
 def gen_weights(rng, n):
+    if rng.random() < .12: return gen_fraction_weights(rng, n)
     style = rng.choice(["dyadic-zeros", "dyadic-zeros", "ints", "normalised", "floats", "one-hot"])
     if style == "dyadic-zeros": w = [rng.choice([0, 0, 1, 2, 3, 4]) / rng.choice([1, 2, 4, 8]) for _ in range(n)]
     elif style == "ints":       w = [rng.choice([0, 1, 2, 5]) for _ in range(n)]
@@ -192,7 +236,7 @@ def build_args(call):
     if m in ("choice", "choicew"):
         seq, w, cont = call[1], call[2], call[3]
         seq = range(len(seq)) if cont == "range" else (tuple(seq) if cont == "tuple" else list(seq))
-        return (seq,) if w is None else (seq, list(w))
+        return (seq,) if w is None else (seq, dec_w(w))
     return tuple(call[1:])
 
 class ReusedArgs:
@@ -220,7 +264,7 @@ class ReusedArgs:
         if m in ("choice", "choicew"):
             seq, w, cont = call[1], call[2], call[3]
             seq = self._buf("seq", seq) if cont == "list" else build_args(call)[0]
-            return (seq,) if w is None else (seq, self._buf("weights", w))
+            return (seq,) if w is None else (seq, self._buf("weights", dec_w(w)))
         return build_args(call)
 
 def expects_raise(call):
@@ -239,12 +283,14 @@ def _members_class(seq):
     return "equal-members" if len(set(map(repr, seq))) == len(set(seq)) else "equal-members-mixed-type"
 def _weight_flags(w):
     if w is None: return "unweighted"
+    frac = "fraction-" if _has_fraction(w) else ""
+    w  = dec_w(w)
     nz = [i for i, x in enumerate(w) if x > 0]
     f = []
     if nz[0] > 0: f.append("leading-zero")
     if any(w[i] == 0 for i in range(nz[0], nz[-1])): f.append("embedded-zero")
     if nz[-1] < len(w) - 1: f.append("trailing-zero")
-    return "weights=" + ("+".join(f) if f else "all-positive")
+    return frac + "weights=" + ("+".join(f) if f else "all-positive")
 
 def arg_sig(call):
     """coarse, mechanism-level description of the arguments (for violation signatures)"""
@@ -256,7 +302,8 @@ def arg_sig(call):
         return ("range=1-value" if n == 1 else "range<=16" if n <= 16 else "range<=2^30" if n <= M else "range>2^30") + ("/a=0" if a == 0 and m == "randints" else "")
     if m == "shuffle": return f"mode={call[2]}"
     if m in ("choice", "choicew"):
-        return "empty-seq" if not call[1] else ("unweighted" if call[2] is None else "weighted") + ("" if _members_class(call[1]) == "distinct" else "+equal-members")
+        return "empty-seq" if not call[1] else (("unweighted" if call[2] is None else "weighted") + ("+fraction-weights" if _has_fraction(call[2]) else "")
+                                                + ("" if _members_class(call[1]) == "distinct" or _has_fraction(call[2]) else "+equal-members"))
     return "args=" + ("default" if len(call) == (1 if m == "gauss" else 2) else "given")
 
 def sig_args(call):
@@ -383,6 +430,7 @@ def check_case(spec, ctx=None):
     kind = spec.get("kind", "script")
     L.install()
     if kind == "attain": return check_attain(spec, ctx)
+    if kind == "consumer": return check_consumer(spec, ctx)
     if kind == "child":  return check_child(spec["hashseed"], spec["noise"], [spec["case"]], ctx)
     return check_script(spec, ctx)[0]
 
@@ -424,6 +472,8 @@ def check_script(spec, ctx=None):
         R.append(rec[:2]); drew.append(bool(nd) or nd is None)
         if m in ("choice", "choicew") and call[1] and call[2] is not None and _members_class(call[1]) != "distinct":
             note(f"workload.{m}.weighted.equal-members")
+        if m in ("choice", "choicew") and call[1] and _has_fraction(call[2]):
+            note("workload.weighted.fraction-weights")
         bad = None
         if rec[0] == "contract":
             bad = (f"{m}/{sig_args(call)}{rec[2]}/{sc}", f"call #{i} {call} broke postcondition {rec[1]} ({rec[2]}) with LCG state before the call {sb}")
@@ -507,6 +557,277 @@ def check_script(spec, ctx=None):
     finally:
         cr._random = saved
     return viol, R
+
+
+# ========================================================================================== consumers of the stream
+# The anchor files hold the places where coba itself draws from a seeded CobaRandom: pipes.filters.Shuffle / Reservoir (and
+# environments.filters.Reservoir, which inherits filter), learners.utilities.PMFPredictor / PMFInfoPredictor and SafeLearner's
+# pmf route.  What the statement says about the generator carries over to them: for EVERY state of the stream (incl. the one
+# whose uniform is exactly 0.0, at whichever draw of the consumer it lands) the result is a function of the seed and the
+# argument values, made of contract-respecting values -- so a legal seed does not make the consumer raise, the sample is made
+# of members of the input at distinct positions, the predicted action has non-zero probability and comes with its own one.
+FILTERS    = ("reservoir", "env-reservoir", "shuffle-filter")
+PREDICTORS = ("pmf-predictor", "pmf-info-predictor", "safe-learner-pmf")
+
+class recording_rngs:
+    """re-binds the CobaRandom name of a consumer's module to a factory that builds the real class and remembers the instances
+    (a filter creates its generator inside filter(): this is the only way to read how far it drew)"""
+    def __init__(self, mod): self.mod = mod
+    def __enter__(self):
+        real = self.real = self.mod.CobaRandom
+        made = []
+        def factory(*a, **k):
+            r = real(*a, **k); made.append(r)
+            return r
+        self.mod.CobaRandom = factory
+        return made
+    def __exit__(self, *a): self.mod.CobaRandom = self.real
+
+class _PmfLearner:
+    """a learner that answers with an explicit pmf over the offered actions (one per round)"""
+    def __init__(self, pmfs): self.pmfs, self.t = pmfs, 0
+    def _next(self):
+        p = self.pmfs[self.t % len(self.pmfs)]; self.t += 1
+        return list(p)
+    def __call__(self, context, actions): return self._next()
+    def predict(self, context, actions): return {"pmf": self._next()}
+    def learn(self, *a, **k): pass
+class _PmfInfo(_PmfLearner):
+    def __call__(self, context, actions): return self._next(), {"round": self.t}
+
+def _items(n, container):
+    vals = range(1000, 1000 + n)
+    if container == "list":  return list(vals)
+    if container == "tuple": return tuple(vals)
+    if container == "range": return vals
+    if container == "iter":  return iter(list(vals))
+    return (v for v in vals)                                       # generator
+
+def run_consumer(spec, between=None, variant=None):
+    """-> (records, values, generators the consumer drew from).  variant: another equivalent way of putting the same request
+    (other container with the same items, the subclass that inherits filter, a pickled/deep-copied filter)"""
+    import coba.pipes.filters as pf, coba.environments.filters as ef, coba.learners.utilities as lu, coba.safety as sf
+    what, a, seed = spec["what"], spec["args"], seed_value(spec["seed"])
+    recs, vals = [], []
+    def call(f):
+        try: v = f()
+        except ContractBroken as e: recs.append(["contract", e.tag, L.DETAIL[0]]); vals.append(None); return False
+        except Exception as e:      recs.append(["raise", type(e).__name__, str(e)[:120]]); vals.append(None); return False
+        recs.append(["ok", repr(v)]); vals.append(v)
+        return True
+    if what in FILTERS:
+        cont = a["container"]
+        if variant == "other-container": cont = {"list": "iter", "iter": "range", "range": "generator", "generator": "tuple", "tuple": "list"}[cont]
+        if what == "shuffle-filter": flt = pf.Shuffle(seed)
+        else:
+            cls = ef.Reservoir if (what == "env-reservoir") != (variant == "other-class") else pf.Reservoir
+            flt = cls(a["count"], strict=a["strict"], seed=seed)
+        if variant == "pickled":  flt = pickle.loads(pickle.dumps(flt))
+        if variant == "deepcopy": flt = copy.deepcopy(flt)
+        if between: between(0)
+        with recording_rngs(pf) as made:
+            call(lambda: list(flt.filter(_items(a["n"], cont))))
+        return recs, vals, list(made)
+    pmfs, actions = [dec_w(p) for p in a["pmfs"]], list(a["actions"])
+    if what == "pmf-predictor":        c = lu.PMFPredictor(_PmfLearner(pmfs), seed);     rng = c._pmfrng
+    elif what == "pmf-info-predictor": c = lu.PMFInfoPredictor(_PmfInfo(pmfs), seed);    rng = c._pmfrng
+    else:                              c = sf.SafeLearner(_PmfLearner(pmfs), seed=seed); rng = c._rng
+    for t in range(len(pmfs)):
+        if between: between(t)
+        if not call(lambda: c.predict(None, actions if variant != "fresh-actions" else list(actions))): break
+    return recs, vals, [rng]
+
+def _shuffle_draws(count, n):
+    """uniforms the initial in-place shuffle of the reservoir takes (Durstenfeld: one per position but the last)"""
+    k = min(count, n) if count is not None else n
+    return max(k - 1, 0)
+
+def reservoir_triples_read(sb, count, n):
+    """ACCOUNTING ONLY (never an oracle): how many (r1,r2,r3) triples the skip loop of Algorithm L (Li 1994, as coba's Reservoir
+    documents it) reads before the items run out or the skip becomes infinite, for the stream that starts at state sb"""
+    try:
+        if not count or n < count: return 0
+        s, W, pos, k = jump(sb, _shuffle_draws(count, n)), 1.0, count, 0
+        while k < 10000:
+            s1 = step(s); s2 = step(s1); s = step(s2); k += 1
+            if s1 == 0 or s2 == 0: return k
+            W *= (s1 / M) ** (1 / count)
+            pos += math.floor(math.log(s2 / M, 1 - W)) + 1
+            if pos > n: return k
+        return k
+    except Exception:
+        return None
+
+def consumer_class(spec):
+    a = spec["args"]
+    if spec["what"] in FILTERS:
+        c, n = a.get("count", None), a["n"]
+        if spec["what"] == "shuffle-filter": return "items=" + _nclass(n)
+        if c is None: return "count=None"
+        if c == 0:    return "count=0"
+        return ("count=1" if c == 1 else "count>1") + ("/fewer-items-than-count" + ("/strict" if a["strict"] else "") if n < c else "")
+    flags = sorted({_weight_flags(p).split("=")[1] for p in a["pmfs"]})
+    return "pmf=" + ("all-positive" if flags == ["all-positive"] else "with-zeros")
+
+def draw_slot(spec, d):
+    """which draw of the consumer the d-th uniform of its stream is (mechanism level)"""
+    a = spec["args"]
+    if spec["what"] in PREDICTORS: return "predict-draw"
+    sh = _shuffle_draws(a.get("count"), a["n"])
+    if d <= sh: return "shuffle-draw"
+    return f"skip-loop-draw-{(d - sh - 1) % 3 + 1}-of-3"
+
+def judge_consumer(spec, rec, val, t=0):
+    """-> failure mode or None, for one result of the consumer"""
+    a, what = spec["args"], spec["what"]
+    if rec[0] == "contract": return f"{rec[1]}:{rec[2]}"
+    if rec[0] == "raise":    return "raise:" + rec[1]
+    if what in FILTERS:
+        n, c = a["n"], a.get("count")
+        if not isinstance(val, list): return "not-a-list"
+        items = range(1000, 1000 + n)
+        if any(not (isinstance(v, int) and v in items) for v in val): return "non-member"
+        if len(set(val)) != len(val): return "same-position-twice"
+        want = n if (what == "shuffle-filter" or c is None) else 0 if c == 0 else c if n >= c else (0 if a["strict"] else n)
+        return None if len(val) == want else "wrong-size"
+    pmf, actions = dec_w(a["pmfs"][t]), a["actions"]
+    if not isinstance(val, tuple) or len(val) != (2 if what == "pmf-predictor" else 3): return "wrong-shape"
+    act, p = val[0], val[1]
+    if act not in actions: return "non-member"
+    i = actions.index(act)                                         # (actions are distinct)
+    if not pmf[i] > 0: return "zero-probability-action"
+    return None if p == pmf[i] else "wrong-probability"
+
+def check_consumer(spec, ctx=None):
+    from coba.random import CobaRandom
+    import coba.random as cr
+    from coba.context import CobaContext, NullLogger
+    CobaContext.logger = NullLogger()                              # SafeLearner announces the pmf route on the logger
+    def note(name, n=1):
+        if ctx: ctx.count(name, n)
+    what, seed = spec["what"], seed_value(spec["seed"])
+    aim = spec.get("aim")
+    sb  = state_of(CobaRandom(seed))
+    recs, vals, rngs = run_consumer(spec)
+    nd  = draws_between(sb, state_of(rngs[0]), limit=1 << 14) if len(rngs) == 1 else None
+    if sb is None: aim = None                                      # (the state cannot be read: nothing can be aimed or accounted)
+    if nd is None: note("model.mismatch")
+    else: note("model.calls_following_lcg")
+    sc, slot = "u=other", ""
+    if aim:
+        note("adversarial.cases")
+        used = nd is not None and nd >= aim["d"] and jump(sb, aim["d"]) == aim["t"]
+        if used and what in ("reservoir", "env-reservoir") and aim["d"] > _shuffle_draws(spec["args"]["count"], spec["args"]["n"]):
+            k = reservoir_triples_read(sb, spec["args"]["count"], spec["args"]["n"])
+            used = k is None or (aim["d"] - _shuffle_draws(spec["args"]["count"], spec["args"]["n"]) - 1) // 3 < k
+            if not used: note("adversarial.consumer.target-in-unread-triple")
+        slot = "@" + draw_slot(spec, aim["d"])
+        if used:
+            note("adversarial.reached"); note("adversarial.consumer.reached"); note(f"adversarial.consumer.reached.{aim['tname']}{slot}")
+            sc = aim["tname"] if aim["tname"] in ("u=0", "u=largest") else "u=other"
+        elif jump(sb, aim["d"]) != aim["t"] or nd is None: note("adversarial.missed")
+    elif nd is not None:
+        sc = state_class(consumed_states(sb, nd))
+    cls = consumer_class(spec)
+    if ctx: ctx.case(("consumer", what, cls, sc + slot, seed_kind(seed), "adv" if aim else "gen"), nontrivial=bool(nd) or nd is None)
+    note("oracle.consumer." + what)
+    for t, (rec, val) in enumerate(zip(recs, vals)):
+        mode = judge_consumer(spec, rec, val, t)
+        if mode:
+            # (environments.filters.Reservoir inherits filter: one mechanism, one signature; the slot is named when the chosen state is extreme)
+            return [(f"consumer/{what.replace('env-', '')}/{cls}/{mode}/{sc}{slot if sc != 'u=other' else ''}",
+                     f"{what} seed={seed!r} args={ {k: v for k, v in spec['args'].items() if k != 'pmfs'} }: result #{t} is {rec[1:]}"
+                     + (f" (pmf {spec['args']['pmfs'][t]})" if what in PREDICTORS else "") + f"; the stream starts at LCG state {sb}"
+                     + (f", state {aim['t']} is draw #{aim['d']}" if aim else ""))]
+    # ---- the result is a function of the seed and the argument values
+    R = [r[:2] for r in recs]
+    nseed = spec.get("noise", 0)
+    saved = cr._random
+    try:
+        variants = [None, "noise"] + (["other-container", "pickled", "deepcopy"] + (["other-class"] if what != "shuffle-filter" else [])
+                                      if what in FILTERS else ["fresh-actions"])
+        for v in variants:
+            between = Noise("mixed", seed if seed == seed else 0, nseed * 11 + 3) if v == "noise" else None
+            got = [r[:2] for r in run_consumer(spec, between, None if v == "noise" else v)[0]]
+            mode = "consumer-" + (v or "plain-rerun")
+            note("oracle.purity.consumer")
+            if ctx: ctx.case(("purity", mode, what), nontrivial=True)
+            d = first_diff(R, got)
+            if d is not None:
+                return [(f"purity/{mode}/{what.replace('env-', '')}/{cls}", f"{mode}: {what} seed={seed!r} result #{d} is {got[d] if d < len(got) else None}, "
+                                                         f"the first run gave {R[d] if d < len(R) else None}")]
+    finally:
+        cr._random = saved
+    return []
+
+def gen_pmfs(rng, n, rounds):
+    out = []
+    for _ in range(rounds):
+        style = rng.choice(["one-hot", "epsilon-greedy", "dyadic", "dyadic", "normalised"])
+        if style == "one-hot": w = [0] * n; w[rng.randrange(n)] = 1
+        elif style == "epsilon-greedy" and n > 1: w = [1 / 8 / (n - 1)] * n; w[rng.randrange(n)] = 7 / 8
+        elif style == "normalised":
+            raw = [rng.choice([0, 1, 2, 3, 7]) for _ in range(n)]
+            if sum(raw) == 0: raw[rng.randrange(n)] = 1
+            w = [x / sum(raw) for x in raw]
+        else:
+            while True:                                            # dyadic: eighths that add up to one, zeros anywhere
+                cuts = sorted(rng.choice(range(9)) for _ in range(n - 1))
+                w = [(b - a) / 8 for a, b in zip([0] + cuts, cuts + [8])]
+                if sum(w) == 1: break
+        out.append(w)
+    return out
+
+def gen_consumer(rng):
+    what = rng.choice(["reservoir", "reservoir", "env-reservoir", "shuffle-filter", "pmf-predictor", "pmf-info-predictor", "safe-learner-pmf"])
+    seed = gen_seed(rng)
+    if what == "shuffle-filter":
+        seed = rng.choice([0, 1, 2, rng.randrange(2**20), rng.randrange(M), M1, M, 2**64 + rng.randrange(M)])   # (int >= 0 is all it takes)
+        args = {"n": rng.choice([0, 1, 2, 3, 5, 17, 64]), "container": rng.choice(["list", "tuple", "range", "iter", "generator"])}
+    elif what in FILTERS:
+        count = rng.choice([None, 0, 1, 1, 2, 3, 5, 8, 20])
+        n = rng.choice([0, 1, 2, 5, 17, 64] if count is None else
+                       [0, max(count - 1, 0), count, count + 1, 2 * count + 3, 10 * count + 7, 50, 500, 5000, 50000])
+        args = {"count": count, "strict": rng.random() < .3, "n": n, "container": rng.choice(["list", "tuple", "range", "iter", "generator"])}
+    else:
+        n = rng.choice([1, 2, 3, 3, 4, 5, 8])
+        args = {"actions": [f"a{i}" for i in rng.sample(range(20), n)], "pmfs": gen_pmfs(rng, n, rng.choice([1, 2, 3, 5, 8]))}
+    return {"kind": "consumer", "what": what, "seed": seed_spec(seed), "args": args, "noise": rng.randrange(10**6)}
+
+def adversarial_consumers(rng):
+    """the chosen states (uniform 0.0, the largest one, the smallest positive one, cumulative-probability thresholds) on every
+    draw position of a consumer's stream: each draw of the initial shuffle, each draw of the first skip-loop triples and of the
+    triples around the point where the loop fetches its next batch of uniforms; every round of a predictor"""
+    EXT3 = [("u=0", 0), ("u=largest", M1), ("u=smallest-positive", 1)]
+    out = []
+    def seed_forms(s, i):
+        return [s, s + M * (1 + i % 5), s - M * (1 + i % 3), float(s + M * (i % 4))][i % 4]
+    for what in ("reservoir", "env-reservoir"):
+        for count in (1, 2, 3, 5, 8):
+            for n in ((12 * count + 5, 2500 * count) if what == "reservoir" else (400 * count,)):
+                sh = _shuffle_draws(count, n)
+                ds = list(range(1, sh + 9 + 1))
+                if n >= 2500 * count and count >= 5: ds += list(range(sh + 55, sh + 67))      # the loop fetches 60 uniforms at a time
+                for d in ds:
+                    for name, t in EXT3:
+                        out.append({"kind": "consumer", "what": what, "seed": seed_spec(seed_forms(seed_for(t, d), len(out))),
+                                    "args": {"count": count, "strict": len(out) % 5 == 0, "n": n, "container": ["iter", "list", "range", "generator"][len(out) % 4]},
+                                    "noise": len(out), "aim": {"d": d, "t": t, "tname": name}})
+    for n in (2, 3, 6):
+        for d in range(1, n):
+            for name, t in EXT3[:2]:
+                out.append({"kind": "consumer", "what": "shuffle-filter", "seed": seed_spec(seed_for(t, d) + M * (len(out) % 3)),
+                            "args": {"n": n, "container": ["iter", "list", "range"][len(out) % 3]}, "noise": len(out), "aim": {"d": d, "t": t, "tname": name}})
+    for what in PREDICTORS:
+        for pmf in ([0, 1], [1, 0], [0, 0.5, 0.5], [0.5, 0.5, 0], [0.25, 0, 0.75], [0, 0.25, 0.25, 0, 0.5, 0], [0, 0, 1], [0.125, 0.875]):
+            n = len(pmf)
+            thr = [("threshold", s + e) for s in _dyadic_thresholds(list(accumulate(pmf)), 1) for e in (-1, 0)]
+            for d in (1, 3):
+                for name, t in EXT3[:2] + thr:
+                    pmfs = gen_pmfs(rng, n, d - 1) + [pmf] + gen_pmfs(rng, n, 1)
+                    out.append({"kind": "consumer", "what": what, "seed": seed_spec(seed_forms(seed_for(t, d), len(out))),
+                                "args": {"actions": [f"a{i}" for i in range(n)], "pmfs": pmfs}, "noise": len(out), "aim": {"d": d, "t": t, "tname": name}})
+    return out
 
 # ------------------------------------------------------------------------------------------ attainability of [a,b]
 def check_attain(spec, ctx=None):
@@ -663,6 +984,12 @@ def adversarial_protos(rng):
                   [0, 0, 3, 1], [2, 0, 0, 2], [0.0, 1.0], [0, 0.1, 0.2, 0.7], [1, 1, 1], [0, 5]):
             thr = [("threshold", s + d) for s in _dyadic_thresholds(list(accumulate(w)), sum(w)) for d in (-1, 0, 1)]
             add([m, [f"m{i}" for i in range(len(w))] if m == "choice" else list(range(10, 10 + len(w))), w, rng.choice(["list", "tuple"])], EXT + thr)
+        # exact rational weights, alone and next to ints
+        F = Fraction
+        for w in ([F(0), F(1, 2), F(1, 2)], [F(1, 4), F(0), F(3, 4)], [0, F(1, 2), F(1, 2)], [F(0), 1, 1], [F(1, 2), F(1, 2), F(0)],
+                  [F(0), F(0), F(1, 3), F(2, 3)]):
+            thr = [("threshold", int(s) + d) for s in _dyadic_thresholds(list(accumulate(w)), sum(w)) for d in (-1, 0)]
+            add([m, [f"m{i}" for i in range(len(w))], enc_w(w), rng.choice(["list", "tuple"])], EXT + thr, prefixes=[[]])
         # equal members at several positions (the first of them without weight), and the same draw after an earlier weighted
         # draw over the same members with other weights
         for seq, w in ([[10, 11, 10], [0, 1, 1]], [["a", "b", "a"], [0.0, 0.5, 0.5]], [[1, 2, 1.0], [0, 0.25, 0.75]],
@@ -811,6 +1138,16 @@ def run_shard(ctx):
             report(v, spec)
             if R is not None: for_child.append(spec)
     ctx.count("adversarial.protos", sum(1 for i in range(len(protos)) if i % ctx.nshards == ctx.shard))
+
+    # consumers of the stream (filters, predictors): chosen states on every draw position, then generated requests
+    cons = adversarial_consumers(pyrandom.Random(f"{ctx.seed}/C05/adv-consumers"))
+    for idx, spec in enumerate(cons):
+        if idx % ctx.nshards != ctx.shard: continue
+        report(check_consumer(spec, ctx), spec)
+    for i in range(60 if ctx.tier == "quick" else 1500):
+        spec = gen_consumer(ctx.rng)
+        if i < 1: ctx.sample({"consumer": spec})
+        report(check_consumer(spec, ctx), spec)
 
     # attainability of both ends of [a,b]
     for _ in range(24 if ctx.tier == "quick" else 400):
